@@ -2,6 +2,7 @@
 # run_mutant.sh <patch.diff> <property id> [tier]: apply to /repo, run the check, revert.
 # The evidence file of the property is saved and restored (evidence must come from the clean tree).
 P=$1; ID=$2; T=${3:-quick}
+[ -z "$(git -C /repo status --porcelain)" ] || { echo "/repo has uncommitted changes: commit them first (this script reverts the working tree)"; exit 3; }
 cp /verif/evidence/$ID.json /tmp/evidence.$ID.save 2>/dev/null
 cd /repo && git apply $P || { echo "patch does not apply"; exit 3; }
 timeout 1500 /verif/bin/govc check -p $ID -tier $T 2>&1 | grep -E "^VIOLATION|^UNDECIDED|^KNOWN|^$ID " | cut -c1-300
